@@ -62,9 +62,15 @@ func vpRecord(tag string, nameLen, readLen, sparse int) *Fastq {
 func VP_C02_RoundTrip() {
 	nrec := vpCase("records")
 	var w vpBuf
-	var want []vpRec
+	var want, given []vpRec
 	for r := 0; r < nrec; r++ {
 		f := vpRecord("r"+vpDigit(r)+".", vpCase("nameLen"), vpCase("readLen"+vpDigit(r)), vpCase("sparse"))
+		if vpCaseOr("shared", 0) == 1 {
+			// the three fields cut from one buffer
+			c := vpCarve(f.Name, f.Sequence, f.Quals)
+			f.Name, f.Sequence, f.Quals = c[0], c[1], c[2]
+		}
+		given = append(given, vpRec{name: append([]byte(nil), f.Name...), seq: append([]byte(nil), f.Sequence...), qual: append([]byte(nil), f.Quals...)})
 		before := len(w.b)
 		vpAssert(f.Write(&w) == nil, "Write succeeds")
 		txt, err := f.MarshalText()
@@ -82,7 +88,8 @@ func VP_C02_RoundTrip() {
 		want = append(want, vpRec{name: f.Name, seq: f.Sequence, qual: f.Quals})
 	}
 	got := vpCollect(vpOneShot(w.b), nrec+3)
-	vpAssert(vpSameRecs(got, want), "Reader yields exactly the written records in order")
+	vpAssert(vpSameRecs(given, want), "writing does not alter the records")
+	vpAssert(vpSameRecs(got, given), "Reader yields exactly the written records in order")
 	vpObserveInt("bytes", len(w.b))
 	vpReach("end")
 }
@@ -132,6 +139,13 @@ func VP_C02_Corrupt() {
 				txt = txt[:l3-1]
 			case 8: // empty line instead of the name line
 				txt = append([]byte{'\n'}, txt...)
+			case 9: // an empty line where the '+' line should be
+				t2 := append([]byte(nil), txt[:l2]...)
+				txt = append(t2, txt[l2+1:]...)
+			case 10: // the '+' line is missing altogether (qualities not starting with '+')
+				vpAssume(len(f.Quals) == 0 || f.Quals[0] != '+')
+				t2 := append([]byte(nil), txt[:l2]...)
+				txt = append(t2, txt[l3:]...)
 			}
 		}
 		data = append(data, txt...)
